@@ -7,22 +7,21 @@ From Coq Require Import Sorting.Sorted Sorting.Permutation.
 Section WithTable.
 Variable t : ranks.
 Hypothesis ROK : ranks_ok t = true.
-Variable cu : list N -> N.
 Variable f : fam.
-Notation ok := (fun v => cmp_ok t cu f v = true).
+Notation ok := (fun v => cmp_ok t f v = true).
 
 Lemma eq_refl_law a : ok a -> eq a a = true.
-Proof. intros Ha. rewrite (eq_spec t ROK cu f) by auto. rewrite nc_refl. reflexivity. Qed.
+Proof. intros Ha. rewrite (eq_spec t ROK f) by auto. rewrite nc_refl. reflexivity. Qed.
 
 Lemma eq_sym_law a b : ok a -> ok b -> eq a b = eq b a.
 Proof.
-  intros Ha Hb. rewrite !(eq_spec t ROK cu f) by auto. rewrite (nc_antisym t b a).
+  intros Ha Hb. rewrite !(eq_spec t ROK f) by auto. rewrite (nc_antisym t b a).
   destruct (nc t b a); reflexivity.
 Qed.
 
 Lemma eq_trans_law a b c : ok a -> ok b -> ok c -> eq a b = true -> eq b c = true -> eq a c = true.
 Proof.
-  intros Ha Hb Hc. rewrite !(eq_spec t ROK cu f) by auto. rewrite !is_eq_true.
+  intros Ha Hb Hc. rewrite !(eq_spec t ROK f) by auto. rewrite !is_eq_true.
   intros H1 H2. exact (trans_ok_eq _ _ _ (nc_trans t a b c) H1 H2).
 Qed.
 
@@ -30,7 +29,7 @@ Lemma ne_law a b : ne a b = negb (eq a b).
 Proof. reflexivity. Qed.
 
 Lemma lt_total_law a b : ok a -> ok b -> exists r, lt t a b = Ok r.
-Proof. intros Ha Hb. rewrite (lt_spec t ROK cu f) by auto. eauto. Qed.
+Proof. intros Ha Hb. rewrite (lt_spec t ROK f) by auto. eauto. Qed.
 
 (* exactly one of lt a b, eq a b, lt b a *)
 Definition exactly_one (x y z : bool) : Prop :=
@@ -39,7 +38,7 @@ Definition exactly_one (x y z : bool) : Prop :=
 Lemma trichotomy_law a b : ok a -> ok b ->
   exists x z, lt t a b = Ok x /\ lt t b a = Ok z /\ exactly_one x (eq a b) z.
 Proof.
-  intros Ha Hb. rewrite !(lt_spec t ROK cu f), (eq_spec t ROK cu f) by auto.
+  intros Ha Hb. rewrite !(lt_spec t ROK f), (eq_spec t ROK f) by auto.
   do 2 eexists. split; [reflexivity|split; [reflexivity|]].
   rewrite (nc_antisym t a b). unfold exactly_one. destruct (nc t a b); simpl; tauto.
 Qed.
@@ -47,14 +46,14 @@ Qed.
 Lemma lt_trans_law a b c : ok a -> ok b -> ok c ->
   lt t a b = Ok true -> lt t b c = Ok true -> lt t a c = Ok true.
 Proof.
-  intros Ha Hb Hc. rewrite !(lt_spec t ROK cu f) by auto. intros H1 H2.
+  intros Ha Hb Hc. rewrite !(lt_spec t ROK f) by auto. intros H1 H2.
   assert (A : nc t a b = Lt) by (destruct (nc t a b); simpl in H1; congruence).
   assert (B : nc t b c = Lt) by (destruct (nc t b c); simpl in H2; congruence).
   rewrite (trans_ok_lt _ _ _ (nc_trans t a b c) A B). reflexivity.
 Qed.
 
 Lemma lt_irrefl_law a : ok a -> lt t a a = Ok false.
-Proof. intros Ha. rewrite (lt_spec t ROK cu f) by auto. rewrite nc_refl. reflexivity. Qed.
+Proof. intros Ha. rewrite (lt_spec t ROK f) by auto. rewrite nc_refl. reflexivity. Qed.
 
 Lemma gt_law a b : gt t a b = lt t b a.
 Proof. reflexivity. Qed.
@@ -62,12 +61,12 @@ Proof. reflexivity. Qed.
 (* the order is consistent with equality: equal values are interchangeable on either side of lt *)
 Lemma lt_eq_compat_l a b c : ok a -> ok b -> ok c -> eq a b = true -> lt t a c = lt t b c.
 Proof.
-  intros Ha Hb Hc. rewrite !(lt_spec t ROK cu f), (eq_spec t ROK cu f) by auto. rewrite is_eq_true. intros H.
+  intros Ha Hb Hc. rewrite !(lt_spec t ROK f), (eq_spec t ROK f) by auto. rewrite is_eq_true. intros H.
   rewrite (trans_ok_eq_l _ _ _ (nc_trans t a b c) H). reflexivity.
 Qed.
 Lemma lt_eq_compat_r a b c : ok a -> ok b -> ok c -> eq a b = true -> lt t c a = lt t c b.
 Proof.
-  intros Ha Hb Hc. rewrite !(lt_spec t ROK cu f), (eq_spec t ROK cu f) by auto. rewrite is_eq_true. intros H.
+  intros Ha Hb Hc. rewrite !(lt_spec t ROK f), (eq_spec t ROK f) by auto. rewrite is_eq_true. intros H.
   assert (H' : nc t b a = Eq) by (rewrite (nc_antisym t a b), H; reflexivity).
   rewrite <- (trans_ok_eq_r _ _ _ (nc_trans t c b a) H'). reflexivity.
 Qed.
@@ -84,7 +83,7 @@ Qed.
 (* ---- sorting ---------------------------------------------------------------------------------- *)
 Lemma cmp3_spec a b : ok a -> ok b -> cmp3 t a b = Ok (nc t a b).
 Proof.
-  intros Ha Hb. unfold cmp3. rewrite !(lt_spec t ROK cu f) by auto. rewrite (nc_antisym t a b).
+  intros Ha Hb. unfold cmp3. rewrite !(lt_spec t ROK f) by auto. rewrite (nc_antisym t a b).
   destruct (nc t a b); reflexivity.
 Qed.
 
@@ -146,7 +145,7 @@ Section Sort.
     clear E P Hl. induction S; constructor.
     - apply IHS. inv Hl'; auto.
     - inv Hl'. rewrite Forall_forall in *. intros z I. unfold not_after.
-      rewrite (lt_spec t ROK cu f) by auto. specialize (H z I). unfold le' in H.
+      rewrite (lt_spec t ROK f) by auto. specialize (H z I). unfold le' in H.
       rewrite (nc_antisym t (snd a) (snd z)). destruct (nc t (snd a) (snd z)); simpl; congruence.
   Qed.
 End Sort.
